@@ -250,6 +250,11 @@ def eval_num(e, env):
             return eval_num(a[0], env)
     if k == "call":
         f = src(e["f"])
+        if last(f) == "calculate_function":
+            fn_ = env.vals.get("__function__")
+            if fn_ is None or src(strip(e["args"][0])) != "function":
+                raise Undecided("calculate_function with unknown function")
+            return fn_(eval_num(e["args"][1], env))
         if last(f) == "calculate_infix":
             return apply_op(eval_op(e["args"][1], env), eval_num(e["args"][0], env), eval_num(e["args"][2], env))
     if k == "bin":
@@ -285,7 +290,10 @@ def eval_expr(e, env):
                 op = eval_op(a[1], env)
                 return {apply_op(op, x, y) for x in eval_expr(a[0], env) for y in eval_expr(a[2], env)}
             if n == "function_call":
-                raise Undecided("function_call")
+                fn_ = env.vals.get("__function__")
+                if fn_ is None or src(strip(a[0])) != "function":
+                    raise Undecided("function_call with unknown function")
+                return {fn_(x) for x in eval_expr(a[1], env)}
         raise Undecided("call " + f)
     if k == "mcall":
         recv = src(strip(e["recv"]))
@@ -420,3 +428,76 @@ def equal(a, b):
     except Exception:  # noqa: BLE001
         return False
     return False
+
+
+FUNCTIONS = {
+    "Sine": sp.sin,
+    "Cosine": sp.cos,
+    "Exponent": sp.exp,
+    "SquareRoot": sp.sqrt,
+    "Cis": lambda x: sp.exp(sp.I * x),
+}
+
+
+def function_call_instances(sf):
+    """instances (label, lhs, candidates|reason) of simplify_function_call: the tail expression is
+    `if let PAT = expression.as_ref() { A } else { B }` or `match (function, expression.as_ref()) { arms }`
+    or `match expression.as_ref() { arms }`"""
+    from qv.synq import find_all
+
+    body = sf["body"]
+    tail = body["stmts"][-1]["e"] if body["stmts"] and body["stmts"][-1]["k"] == "expr" else None
+    if tail is None:
+        yield ("shape", None, "undecided: no tail expression")
+        return
+    tail = unparen(tail)
+    arms = []
+    if tail["k"] == "if" and unparen(tail["c"])["k"] == "let":
+        let = unparen(tail["c"])
+        arms.append({"fpat": {"k": "wild"}, "epat": let["pat"], "guard": None, "body": tail["t"], "ln": tail.get("ln", 0)})
+        arms.append({"fpat": {"k": "wild"}, "epat": {"k": "wild"}, "guard": None, "body": tail["f"], "ln": tail.get("ln", 0)})
+    elif tail["k"] == "match":
+        scr = src(tail["e"]).replace(" ", "")
+        for a in tail["arms"]:
+            for pat in pat_alternatives(a["pat"]):
+                if scr.startswith("(function,") and pat["k"] == "tuple" and len(pat["ps"]) == 2:
+                    arms.append({"fpat": pat["ps"][0], "epat": pat["ps"][1], "guard": a.get("guard"), "body": a["body"], "ln": a["ln"]})
+                elif scr.startswith("expression"):
+                    arms.append({"fpat": {"k": "wild"}, "epat": pat, "guard": a.get("guard"), "body": a["body"], "ln": a["ln"]})
+                elif pat["k"] == "wild":
+                    arms.append({"fpat": {"k": "wild"}, "epat": {"k": "wild"}, "guard": a.get("guard"), "body": a["body"], "ln": a["ln"]})
+                else:
+                    yield ("arm@%d" % a["ln"], None, "undecided: scrutinee/pattern shape")
+    else:
+        yield ("shape", None, "undecided: tail is %s" % tail["k"])
+        return
+    for i, arm in enumerate(arms):
+        fp = arm["fpat"]
+        if fp["k"] == "wild" or (fp["k"] == "ident" and not fp.get("sub")):
+            fnames = list(FUNCTIONS)
+        elif fp["k"] == "path" and last(fp["p"]) in FUNCTIONS:
+            fnames = [last(fp["p"])]
+        else:
+            yield ("arm%d" % i, None, "undecided: function pattern")
+            continue
+        for fname in fnames:
+            label = "arm%d:%s" % (i, fname)
+            try:
+                for term, env in bind_expr_pattern(arm["epat"], Env(), "E"):
+                    env = env.copy()
+                    env.vals["__function__"] = FUNCTIONS[fname]
+                    env.vals["expression"] = term
+                    if arm["guard"]:
+                        subs, keep = apply_guard(arm["guard"], env, None)
+                        if not keep:
+                            continue
+                        if subs:
+                            for n, v in list(env.vals.items()):
+                                if n not in ("__numbers__", "__function__"):
+                                    env.vals[n] = sp.sympify(v).subs(subs)
+                    lhs = FUNCTIONS[fname](env.vals["expression"])
+                    yield (label, lhs, eval_expr(arm["body"], env), arm["ln"])
+            except Vacuous as v:
+                yield (label, None, "vacuous: %s" % v)
+            except Undecided as u:
+                yield (label, None, "undecided: %s" % u)
